@@ -142,4 +142,30 @@ Qed.
 Theorem tags_reachable s : reachable c s -> tags_ok s.
 Proof. apply reachable_inv; [apply tags_init|apply tags_step]. Qed.
 
+
+(* ---------- the takers recorded in [consumed] are worker indices ---------- *)
+Definition ctags_ok (s : state) : Prop := forall i t a, In (t, a) (consumed s i) -> t < par c.
+
+Lemma ctags_same s s' : consumed s' = consumed s -> ctags_ok s -> ctags_ok s'.
+Proof. intros H HI i t a Hin. rewrite H in Hin. eapply HI; eauto. Qed.
+
+Theorem ctags_step s e s' : ctags_ok s -> step c s e = Some s' -> ctags_ok s'.
+Proof.
+  intros HI Hs. destruct (step_effect c s e s' Hs) as [_ He].
+  destruct He as [i x Hi Hcl | i Hi Hcl | k t v rest Hb | k v w eof a rest Hb Hcap Hcl Hw Hc Hs0 | | | w s' Hw He
+                 | w a todo Hw Hc | Hcl Had Hcd | t Ht];
+    try (apply ctags_same with s; auto; fail).
+  - destruct He as [i a t rest Hsrc Hc Hb | Hsrc Hc | i Hsrc Hc Hb Hcl | ctl' Hcn
+                   | eof a k0 v rest Hc Hs0 Hcl | eof k0 t r rest Hc Hb | dropped Hp Hnd Hnr Hnc Hwhy | eof a k0 v rest Hc Hs0 Hcl];
+      try (apply ctags_same with s; auto; fail).
+    + intros i' t' a' Hin. simpl in Hin. destruct (Nat.eq_dec i' i) as [->|Hne]; upd_simpl_in Hin; [|eapply HI; eauto].
+      apply in_app_or in Hin. destruct Hin as [Hin|[Hin|[]]]; [eapply HI; eauto|]. inversion Hin; subst. exact Hw.
+    + unfold finish. destruct (closer c); [apply ctags_same with s; auto|].
+      apply ctags_same with s; auto. apply (close_all_frame (set_w s w _) (wcloses c w)).
+  - apply ctags_same with s; auto. simpl. apply (close_all_frame s (closes c)).
+Qed.
+
+Theorem ctags_reachable s : reachable c s -> ctags_ok s.
+Proof. apply reachable_inv; [|apply ctags_step]. intros i t a H. simpl in H. contradiction. Qed.
+
 End Inv2.
